@@ -31,6 +31,9 @@ pub enum VD {
     Keyed(usize),
     /// `NoSsr { children }`: a `<no-ssr>` placeholder on the server, the children on the client (after mount)
     NoSsr(Vec<VD>),
+    /// no node at all: `on_cleanup(move || sig.set(val))` registered in the scope the view is built in (generated at
+    /// the top level only, so it runs when the render scope / the root is torn down — never while the case observes)
+    OnCleanup(usize, u32),
 }
 
 pub const KEYED_LISTS: &[&[u32]] = &[&[], &[1], &[1, 2], &[2, 1], &[1, 2, 3], &[3, 1]];
@@ -64,6 +67,7 @@ pub fn sx(v: &VD) -> String {
         VD::NoHydrate(cs) => format!("(nohydrate{})", l(cs)),
         VD::Keyed(g) => format!("(keyed {g})"),
         VD::NoSsr(cs) => format!("(nossr{})", l(cs)),
+        VD::OnCleanup(g, v) => format!("(oncleanup {g} {v})"),
     }
 }
 
@@ -109,6 +113,7 @@ pub fn rd(s: &Sx) -> Option<VD> {
         "show" => VD::Show(num(&l[1])?, l[2..].iter().map(rd).collect::<Option<_>>()?),
         "frag" => VD::Frag(l[1..].iter().map(rd).collect::<Option<_>>()?),
         "keyed" => VD::Keyed(num(&l[1])?),
+        "oncleanup" => VD::OnCleanup(num(&l[1])?, num(&l[2])? as u32),
         "nossr" => VD::NoSsr(l[1..].iter().map(rd).collect::<Option<_>>()?),
         "nohydrate" => VD::NoHydrate(l[1..].iter().map(rd).collect::<Option<_>>()?),
         _ => return None,
@@ -164,6 +169,11 @@ pub fn build(v: &VD, sigs: &[Signal<u32>]) -> View {
             sycamore::rt::component_scope(move || Show(ShowProps::builder().when(move || s.get() % 2 == 1).children(Children::new(move || View::from(cs.iter().map(|c| build(c, &sigs)).collect::<Vec<View>>()))).build()))
         }
         VD::Frag(cs) => View::from(cs.iter().map(|c| build(c, sigs)).collect::<Vec<View>>()),
+        VD::OnCleanup(g, v) => {
+            let (s, v) = (sigs[*g], *v);
+            on_cleanup(move || s.set(v));
+            View::new()
+        }
         VD::NoSsr(cs) => {
             let (cs, sigs) = (cs.clone(), sigs.to_vec());
             view! { NoSsr(children=Children::new(move || View::from(cs.iter().map(|c| build(c, &sigs)).collect::<Vec<View>>()))) }
@@ -200,6 +210,7 @@ pub fn freeze(v: &VD, store: &[u32]) -> VD {
         VD::DView(g, alts) | VD::DView0(g, alts) => if alts.is_empty() { VD::Frag(vec![]) } else { VD::Frag(fl(&alts[store[*g] as usize % alts.len()])) },
         VD::Show(g, cs) => if store[*g] % 2 == 1 { VD::Frag(fl(cs)) } else { VD::Frag(vec![]) },
         VD::Frag(cs) | VD::NoHydrate(cs) | VD::NoSsr(cs) => VD::Frag(fl(cs)),
+        VD::OnCleanup(..) => VD::Frag(vec![]),
         VD::Keyed(g) => VD::Frag(keyed_list(store[*g]).iter().map(|k| VD::El("li".into(), vec![], vec![VD::Text(format!("k{k}"))])).collect()),
     }
 }
